@@ -116,3 +116,72 @@ pub fn argv_roundtrip(thorough: bool) -> Report {
     r.sample("entrypoint Some(\"\") -> [.., \"--entrypoint\", \"\", ..]: an empty entrypoint resets the image's entrypoint and must be kept".into());
     r
 }
+
+// ---- the glue: BuildConfig / ContainerConfig -> command structs -> processes (libcnb-test's public API, with `pack` and `docker`
+// replaced by a recorder on PATH): every configuration must arrive in exactly one `pack build` / one `docker run` invocation
+fn recorded(log: &std::path::Path) -> Vec<Vec<String>> {
+    let raw = std::fs::read(log).unwrap_or_default();
+    String::from_utf8_lossy(&raw).split("\n--END--\n").filter(|c| !c.trim().is_empty()).map(|c| c.trim_start_matches('\n').split('\0').filter(|a| !a.is_empty() || true).map(String::from).collect::<Vec<_>>()).map(|mut v| { if v.last().map(String::is_empty) == Some(true) { v.pop(); } v }).collect()
+}
+pub fn glue(_thorough: bool) -> Report {
+    use libcnb_test::{BuildConfig, BuildpackReference, ContainerConfig, TestRunner};
+    let mut r = Report::new(
+        "libcnb-test's public API end to end with `pack` and `docker` replaced by argv recorders on PATH: TestRunner::build(BuildConfig {builder, app dir (fixture, or private copy with a preprocessor), buildpack references in order, env pairs}) followed by TestContext::start_container(ContainerConfig {entrypoint, command, env, exposed ports}) for configurations whose build env and container env DIFFER: exactly one `pack build` and one `docker run` are recorded and, parsed with the independent option-grammar parser, carry exactly the configured builder / path / buildpacks in order / build env, resp. entrypoint / command / container env / ports; the fixture directory is untouched when a preprocessor is used; non-trivial = all",
+        "8 configurations (2 app-dir modes x 2 buildpack lists x 2 container configurations)",
+    );
+    let t = tempfile::tempdir().unwrap(); let root = t.path();
+    let bin = root.join("bin"); std::fs::create_dir_all(&bin).unwrap();
+    let log = root.join("cmd.log");
+    for tool in ["pack", "docker"] {
+        let p = bin.join(tool);
+        std::fs::write(&p, "#!/bin/sh\n{ printf '%s\\0' \"$(basename \"$0\")\" \"$@\"; printf '\\n--END--\\n'; } >> \"$VERIF_CMDLOG\"\nexit 0\n").unwrap();
+        use std::os::unix::fs::PermissionsExt; std::fs::set_permissions(&p, std::fs::Permissions::from_mode(0o755)).unwrap();
+    }
+    let old_path = std::env::var("PATH").unwrap_or_default();
+    // single-threaded harness: the process environment is set for the children and restored afterwards
+    unsafe { std::env::set_var("PATH", format!("{}:{old_path}", bin.display())); std::env::set_var("VERIF_CMDLOG", &log); std::env::set_var("CARGO_MANIFEST_DIR", root); }
+    let fixture = root.join("fixture app"); std::fs::create_dir_all(&fixture).unwrap(); std::fs::write(fixture.join("Procfile"), "web: true").unwrap();
+    for preprocess in [false, true] { for bps in [vec!["heroku/one"], vec!["z/last", "a/first", "z/last"]] { for variant in 0..2 {
+        r.evaluations += 1; r.nontrivial += 1;
+        let _ = std::fs::remove_file(&log);
+        let mut bc = BuildConfig::new("heroku/builder:24", &fixture);
+        bc.buildpacks(bps.iter().map(|b| BuildpackReference::Other(b.to_string())).collect::<Vec<_>>());
+        bc.env("BUILD_ONLY", "s3cr=t").env("BP_LOG_LEVEL", "debug");
+        if preprocess { bc.app_dir_preprocessor(|p| std::fs::write(p.join("extra"), "x").unwrap()); }
+        let mut cc = ContainerConfig::new();
+        if variant == 0 { cc.entrypoint("web").env("PORT", "8080").env("GREETING", "a=b c").expose_port(8080); } else { cc.command(["bash", "-c", "echo hi"]).env("ONLY_IN_CONTAINER", "").expose_port(80).expose_port(443); }
+        let input = format!("preprocessor {preprocess}, buildpacks {bps:?}, container variant {variant}");
+        let res = std::panic::catch_unwind(std::panic::AssertUnwindSafe(|| { TestRunner::default().build(&bc, |ctx| { ctx.start_container(&cc, |_c| {}); }); }));
+        if res.is_err() { r.violation("glue_run", "the test runner panicked although pack and docker succeeded", input.clone(), "no panic".into(), "panic".into()); continue; }
+        let cmds = recorded(&log);
+        let packs: Vec<&Vec<String>> = cmds.iter().filter(|c| c.first().map(String::as_str) == Some("pack") && c.get(1).map(String::as_str) == Some("build")).collect();
+        let runs: Vec<&Vec<String>> = cmds.iter().filter(|c| c.first().map(String::as_str) == Some("docker") && c.get(1).map(String::as_str) == Some("run")).collect();
+        if packs.len() != 1 || runs.len() != 1 { r.violation("glue_count", "exactly one pack build and one docker run per configuration", input.clone(), "1 / 1".into(), format!("{} / {} in {cmds:?}", packs.len(), runs.len())); continue; }
+        match parse_build(&packs[0][1..]) {
+            Ok(b) => {
+                let want_env: BTreeMap<String, String> = [("BUILD_ONLY", "s3cr=t"), ("BP_LOG_LEVEL", "debug")].iter().map(|(k, v)| (k.to_string(), v.to_string())).collect();
+                let path_ok = if preprocess { b.path.as_deref() != Some(fixture.to_str().unwrap()) && b.path.is_some() } else { b.path.as_deref() == Some(fixture.to_str().unwrap()) };
+                if b.builder.as_deref() != Some("heroku/builder:24") || b.buildpacks != bps.iter().map(|x| x.to_string()).collect::<Vec<_>>() || b.env != want_env || b.env_count != 2 || !path_ok {
+                    r.violation("glue_pack", "the pack build invocation carries the builder, app path, buildpacks in order and every build env pair exactly once", format!("{input} -> {:?}", packs[0]), format!("builder heroku/builder:24, buildpacks {bps:?}, env {want_env:?}, path {}", if preprocess { "a private copy" } else { "the fixture" }), format!("{b:?}"));
+                }
+            }
+            Err(e) => r.violation("glue_pack", "the recorded pack invocation is not well-formed", format!("{input} -> {:?}", packs[0]), "well-formed".into(), e),
+        }
+        match parse_run(&runs[0][1..]) {
+            Ok(d) => {
+                let (want_ep, want_cmd, want_env, mut want_ports): (Option<String>, Vec<String>, BTreeMap<String, String>, Vec<u16>) = if variant == 0 {
+                    (Some("web".into()), vec![], [("PORT", "8080"), ("GREETING", "a=b c")].iter().map(|(k, v)| (k.to_string(), v.to_string())).collect(), vec![8080])
+                } else { (None, vec!["bash".into(), "-c".into(), "echo hi".into()], [("ONLY_IN_CONTAINER", "")].iter().map(|(k, v)| (k.to_string(), v.to_string())).collect(), vec![80, 443]) };
+                want_ports.sort(); let mut got_ports = d.ports.clone(); got_ports.sort();
+                if d.entrypoint != want_ep || d.command != want_cmd || d.env != want_env || got_ports != want_ports || !d.detach {
+                    r.violation("glue_docker", "the docker run invocation yields exactly the configured entrypoint, command, container environment and ports", format!("{input} -> {:?}", runs[0]), format!("entrypoint {want_ep:?} command {want_cmd:?} env {want_env:?} ports {want_ports:?}"), format!("{d:?}"));
+                }
+            }
+            Err(e) => r.violation("glue_docker", "the recorded docker run invocation is not well-formed", format!("{input} -> {:?}", runs[0]), "well-formed".into(), e),
+        }
+        if std::fs::read_dir(&fixture).unwrap().count() != 1 { r.violation("glue_fixture", "the fixture stays untouched", input.clone(), "only Procfile".into(), "changed".into()); }
+    } } }
+    unsafe { std::env::set_var("PATH", old_path); }
+    r.sample("build env {BUILD_ONLY, BP_LOG_LEVEL} only in pack build; container env {PORT, GREETING} only in docker run".into());
+    r
+}
